@@ -24,7 +24,7 @@ RULE = (
 ASSUMPTIONS = ["tolerance 500*eps*max(cond(I+KW), cond(AKA^T+S)) times the magnitude of the terms involved"]
 TIMEOUT = {"quick": 300, "thorough": 1800}
 REQUIRED = {"post:calculate_posterior": 100, "cases:wide": 20, "cases:tall": 20, "cases:rank_deficient": 10, "judged": 100,
-            "gradient_components_checked": 200}
+            "gradient_components_checked": 200, "cases:default_prior_pairs": 16}
 
 
 def jobs(tier, seed):
@@ -158,6 +158,41 @@ def run_job(job, rec):
         rec.count("gradient_components_checked", theta.size)
         rec.check(g.shape == gn.shape and bool(np.all(np.abs(g - gn) <= gtol)), "evidence-gradient",
                   lambda: f"{desc}/{mean_name}: evidence gradient {g} != numerical {gn}", rec.context)
+
+    # ---- two inverters relying on the default prior classes, built one after the other; the first is used afterwards
+    for c in range(max(2, job["n_cases"] // 6)):
+        sizes = [int(rng.choice([4, 6, 9])), int(rng.choice([4, 6, 9, 12]))]
+        invs, data = [], []
+        for npar in sizes:
+            pos = G.random_points(rng, npar, 1)
+            A = rng.normal(size=(npar + 2, npar))
+            y = rng.normal(size=npar + 2)
+            ye = 10.0 ** rng.uniform(-1, 0, size=npar + 2)
+            invs.append(guarded(GpLinearInverter, y=y, y_err=ye, model_matrix=A, parameter_spatial_positions=pos))
+            data.append((pos, A, y, ye))
+        dctx = {"default_prior_pair": c, "sizes": sizes}
+        rec.context = dctx
+        rec.count("cases:default_prior_pairs")
+        if any(isinstance(v, Raised) for v in invs):
+            rec.violation("raised", f"constructing inverters with the default prior raised {invs}", dctx)
+            continue
+        for which in (0, 1):
+            pos, A, y, ye = data[which]
+            npar = pos.shape[0]
+            th = np.array([rng.normal(), rng.uniform(-0.5, 0.5), np.log(np.ptp(pos)) + rng.uniform(-1.5, 0)])
+            out = guarded(invs[which].calculate_posterior, th)
+            if isinstance(out, Raised):
+                rec.violation("raised", f"calculate_posterior on inverter {which} of a default-prior pair raised {out!r}", dctx)
+                continue
+            K = R.data_cov(("SE",), pos, th[1:]) + np.eye(npar) * np.exp(2 * th[1]) * 1e-12
+            J = A @ K @ A.T + np.diag(ye**2)
+            m = np.full(npar, th[0])
+            ref_mean = m + K @ A.T @ np.linalg.solve(J, y - A @ m)
+            cnd = np.linalg.cond(J)
+            rec.check(np.shape(out[0]) == (npar,) and bool(np.abs(np.asarray(out[0]) - ref_mean).max() <= 1e-6 * (np.abs(ref_mean).max() + 1) * max(1.0, cnd * 1e-8)),
+                      "objects-share-prior-state",
+                      lambda: f"inverter {which} of two built with the default prior returns a posterior mean that differs from the closed form by "
+                              f"{np.abs(np.asarray(out[0]) - ref_mean).max() if np.shape(out[0]) == (npar,) else np.shape(out[0])}", dctx)
 
     for mname, a in atts.items():
         rec.count("post:" + mname, a.calls)
